@@ -31,6 +31,7 @@ func init() {
 }
 
 func runC05(c *an.Ctx) {
+	c05GeoData(c)
 	sharedErrorsAs(c, "C05-R5", 1, "dnssvc/internal/ratelimitmw.", "ecscache.", "dnsmsg.")
 	if n := sharedLoopCompleteness(c, "C05-R6", "dnsmsg.", "ecscache.", "geoip."); n > 0 {
 		c.Ok("C05-R6", "element-wise loops", token.NoPos, "%d range loops of the ECS helpers examined: no element ends a scan early", n)
@@ -497,6 +498,98 @@ func runC05(c *an.Ctx) {
 				return ""
 			}
 			return "exactly one FORMERR response built from this request; got " + fmt.Sprint(wr)
+		},
+	})
+}
+
+// c05GeoData is the table of geoip.File.Data: the address is normalised before
+// it keys the location cache, and the same address is used for the look-ups.
+func c05GeoData(c *an.Ctx) {
+	c.Floor("C05-R7", 1)
+	decide(c, "C05-R7", "geoip.(*File).Data", an.DecideCfg{
+		Dom: an.Domain{"(p2 == zero:net/netip.Addr)": an.Bools, "mapped": an.Bools, "hit": an.Bools, "asnerr": an.Bools, "ctryerr": an.Bools},
+		OnCall: func(it *an.Interp, name string, args []an.AV) (an.AV, bool) {
+			switch {
+			case strings.HasSuffix(name, ").dataByHost"):
+				return an.Sym("byhost(" + args[1].String() + ")"), true
+			case name == "(net/netip.Addr).Is4In6":
+				if args[0].String() != "p2" {
+					return an.CBool(false), true
+				}
+				return it.Feature("mapped"), true
+			case name == "(net/netip.Addr).As4":
+				return an.Sym("as4(" + args[0].String() + ")"), true
+			case name == "net/netip.AddrFrom4":
+				return an.Sym("v4(" + args[0].String() + ")"), true
+			case strings.HasSuffix(name, "geoip.ipToCacheKey"):
+				return an.Sym("key(" + args[0].String() + ")"), true
+			case name == "p0.ipCache.Get":
+				return an.AV{Kind: an.KTuple, Tup: []an.AV{an.Sym("item(" + args[0].String() + ")"), it.Feature("hit")}}, true
+			case strings.Contains(name, "prometheus.") || strings.Contains(name, "metrics."):
+				return an.Nil(), true
+			case strings.HasSuffix(name, ").lookupASN"):
+				if it.Feature("asnerr").IsTrue() {
+					return an.AV{Kind: an.KTuple, Tup: []an.AV{an.CInt(0), an.NonNil("asnErr")}}, true
+				}
+				return an.AV{Kind: an.KTuple, Tup: []an.AV{an.Sym("asn(" + args[1].String() + ")"), an.Nil()}}, true
+			case strings.HasSuffix(name, ").setCtry"):
+				if it.Feature("ctryerr").IsTrue() {
+					return an.NonNil("ctryErr"), true
+				}
+				return an.Nil(), true
+			case strings.HasSuffix(name, ").setCaches"):
+				return an.Nil(), true
+			case name == "fmt.Errorf":
+				return an.NonNil("wrapped"), true
+			}
+			return an.AV{}, false
+		},
+		Expect: func(f an.Features, o an.AOutcome) string {
+			if f.B("(p2 == zero:net/netip.Addr)") {
+				if o.RetString() == "byhost(p1), nil" {
+					return ""
+				}
+				return "the host-based location when no address is given; got " + o.RetString()
+			}
+			ip := "p2"
+			if f.B("mapped") {
+				ip = "v4(as4(p2))"
+			}
+			key := "key(" + ip + ")"
+			for _, e := range o.Effects {
+				if e.Kind == "call" && e.Name == "p0.ipCache.Get" && e.Args[0] != key {
+					return "the location cache keyed by the normalised address (an IPv4-mapped IPv6 address as its IPv4 form; otherwise all mapped addresses share the first 7 zero bytes and collide): " + key + "; got " + e.Args[0]
+				}
+			}
+			if f.B("hit") {
+				if o.RetString() == "item("+key+"), nil" {
+					return ""
+				}
+				return "the cached location; got " + o.RetString()
+			}
+			if f.B("asnerr") || f.B("ctryerr") {
+				if len(o.Ret) == 2 && o.Ret[0].Kind == an.KNil && o.Ret[1].Kind != an.KNil && !o.HasCall("(*geoip.File).setCaches") {
+					return ""
+				}
+				return "an error and nothing cached when a look-up fails"
+			}
+			for _, e := range o.Effects {
+				if e.Kind != "call" {
+					continue
+				}
+				switch {
+				case strings.HasSuffix(e.Name, ").lookupASN") && e.Args[1] != ip:
+					return "the ASN looked up for the normalised address; got " + e.Args[1]
+				case strings.HasSuffix(e.Name, ").setCtry") && e.Args[2] != ip:
+					return "the country looked up for the normalised address; got " + e.Args[2]
+				case strings.HasSuffix(e.Name, ").setCaches") && (e.Args[1] != "p1" || e.Args[2] != key):
+					return "the result cached under this host and this address's key; got " + strings.Join(e.Args[1:], ",")
+				}
+			}
+			if len(o.Ret) != 2 || !strings.HasPrefix(o.Ret[0].String(), "&local#") || o.Ret[1].Kind != an.KNil {
+				return "the looked-up location; got " + o.RetString()
+			}
+			return ""
 		},
 	})
 }
